@@ -323,6 +323,7 @@ def prepare(cfg):
         STATE['template'] = None
         STATE['compile_error'] = '%s: %s' % (type(exc).__name__, str(exc)[:300])
     STATE['case_and_condition'] = any('case' in e and 'condition' in e for e in tprog.walk(prog))
+    STATE['switch_and_guard'] = any('switch' in e and ('condition' in e or 'repeat' in e) for e in tprog.walk(prog))
     srcs = set()
     collect_sources(prog, srcs)
     STATE['codes'] = {}
@@ -478,7 +479,12 @@ def agree(bindings):
         return True
     if STATE.get('case_and_condition'):
         # documentation and implementation order case/condition differently: either is admissible
-        return _agree1(eng, run_ref(mk(), case_first=True))
+        if _agree1(eng, run_ref(mk(), case_first=True)):
+            return True
+    if STATE.get('switch_and_guard'):
+        # documentation evaluates tal:switch before tal:condition / tal:repeat of the same element, the
+        # implementation after them (once per repetition): either is admissible
+        return _agree1(eng, run_ref(mk(), switch_first=True))
     return False
 
 
